@@ -32,7 +32,7 @@ class C15(PureCheck):
     warm_every = 3
     rule = ("layouts with >=1 run: all single-run layouts of length 0..2 + sampled 2- and 3-run layouts (quick) / all <=2-run "
             "layouts + sampled 3-run (thorough) over {a, b, space, newline, comma} x {plain, red, bold+on_blue}; split with 8 "
-            "separators (present/absent/adjacent/at the ends) and 11 group-free regexes (6 of them able to match zero characters: look-ahead/behind, word boundary, optional, starred, empty), 5 separators with regex metacharacters used both literally and as regexes, splitlines with keepends False/True, "
+            "separators (present/absent/adjacent/at the ends) and 11 group-free regexes (6 of them able to match zero characters: look-ahead/behind, word boundary, optional, starred, empty), 5 separators with regex metacharacters used both literally and as regexes, splitlines with keepends False/True (also over every line boundary str.splitlines knows: CR, CR LF, VT, FF, FS, GS, RS, NEL, LS, PS), "
             "ljust/rjust with widths below/at/above the length with and without fill, 36 delegated str method calls; Python's "
             "own answer on the plain text is logged with each event as the reference. distinct_nontrivial = distinct "
             "(layout, method, args) with a formatted or multi-run operand")
@@ -86,6 +86,14 @@ class C15(PureCheck):
         for sep in ([[[44, 32], list(ATTS[0])]], [[[45], list(ATTS[2])]], [], [[[], list(ATTS[1])]]):
             for items in ([Z, A], [Z, Z, B, A], [A, Z, B], [A, B, Z], [Z], [Z, Z], [E, A], [A, E], [B, A, B], []):
                 yield {"op": "join", "sep": sep, "items": items}
+        # every line boundary str.splitlines knows (CR, CR LF, VT, FF, FS, GS, RS, NEL, LS, PS besides LF), at the
+        # start, inside, doubled and at the end of the text, formatting changing at and inside the boundary
+        for b in ([13], [13, 10], [11], [12], [28], [29], [30], [133], [8232], [8233], [10, 13]):
+            for text in ([97] + b + [98], b + [97], [97] + b, [97] + b + b + [98], b, [97] + b + [98, 10], [97, 10] + b + [98]):
+                for cut in sorted({0, 1, 2, len(text)}):
+                    runs = [[text[:cut], list(ATTS[1])], [text[cut:], list(ATTS[2])]]
+                    for ke in (0, 1):
+                        yield {"op": "splitlines", "f": runs, "keepends": ke}
         for f in pool:
             n = fmtlib.vlen(f)
             for sep in SEPS:
